@@ -522,6 +522,11 @@ def path_conditions(fi: FuncInfo, node: ast.AST) -> list[tuple[ast.AST, bool]]:
                 own_breaks = [b for b in breaks if not any(any(x is b for x in ast.walk(l)) for l in inner_loops)]
                 if not own_breaks:
                     prior.append((st.test, False))
+                elif len(own_breaks) == 1 and isinstance(st.test, ast.Constant) and st.test.value is True:
+                    # `while True: ...; if c: break; ...` is left exactly when c holds
+                    for inner in st.body:
+                        if isinstance(inner, ast.If) and not inner.orelse and len(inner.body) == 1 and inner.body[0] is own_breaks[0]:
+                            prior.append((inner.test, True))
         return False
     rec(fi.node.body)
     # conditions inside the statement itself: the arms of a conditional expression, the later operands of and / or,
